@@ -1,5 +1,179 @@
-// stub: check for C17 not built yet
+use c17::*;
+use emit::Level;
+use vcore::proptest::prelude::*;
+use vcore::Level as VLevel;
+
+const RULE: &str = "cases are (a) one MinLevelFilter (minimum, optional treat_unleveled_as) and one event whose `lvl` is absent, a typed Level (captured / behind Display / behind Debug), a text (level-name prefixes in any case with suffixes, padding and junk), an integer, a bool, a float or null, optionally followed by a shadowed second `lvl`; (b) one MinLevelPathMap built from 0-10 registrations (paths of 1-4 segments over {a,aa,b,ab,a_,e-acute}, repeats and overrides, per-entry unleveled defaults, optional map default set at a generated position) incrementally or through min_by_path_filter/FromIterator, and built a second time from the last-wins de-duplicated registrations in a generated permutation; 1-4 queries (module derived from a registered path by truncation, sibling substitution and extension, or free) x level value are judged against a linear-scan reference and the two builds must agree; (c) the same at level types u8 and a custom Sev(i64); (d) every configuration {unregistered, min Debug, min Error}^6 over the paths a, aa, a::a, a::aa, aa::a, a::a::a x default {none, Warn} x registration order {forward, reverse}, each queried with all 14 modules of depth <=3 over {a,aa} x 4 levels. Non-trivial = a map query whose module has >=2 distinct registered paths as textual prefixes (filters: level from non-canonical text / non-text value, or unleveled event with a configured default).";
+
+fn level_text() -> impl Strategy<Value = String> {
+    const NAMES: [&str; 8] = ["information", "debug", "dbg", "error", "warning", "wrn", "informations", "errors"];
+    const TAILS: [&str; 10] = ["", "", "1", "(13)", " 4", "-x", "\u{1}", "é", "!", " warn"];
+    const PADS: [&str; 4] = ["", " ", "\t", "\n "];
+    let named = (0usize..8, 0usize..12, any::<u16>(), 0usize..10, 0usize..4, 0usize..4).prop_map(|(n, len, mask, tail, l, r)| {
+        let name = NAMES[n];
+        let len = 1 + len % name.len();
+        let body: String = name[..len]
+            .chars()
+            .enumerate()
+            .map(|(i, c)| if mask >> (i % 16) & 1 == 1 { c.to_ascii_uppercase() } else { c })
+            .collect();
+        format!("{}{}{}{}", PADS[l], body, TAILS[tail], PADS[r])
+    });
+    let junk = prop::collection::vec(
+        prop::sample::select(vec!['i', 'n', 'f', 'o', 'd', 'e', 'b', 'u', 'g', 'w', 'a', 'r', 'E', 'W', '1', '(', ' ', '\u{1}', 'é', 't']),
+        0..6,
+    )
+    .prop_map(|v| v.into_iter().collect::<String>());
+    let canonical = prop::sample::select(vec!["debug", "info", "warn", "error", "DEBUG", "INFO", "WARN", "ERROR"]).prop_map(|s| s.to_string());
+    prop_oneof![6 => named, 2 => junk, 2 => canonical]
+}
+
+fn lvl_val(max_int: i64) -> impl Strategy<Value = LvlVal> {
+    prop_oneof![
+        3 => Just(LvlVal::Absent),
+        3 => (0u8..4).prop_map(LvlVal::Typed),
+        1 => (0u8..4).prop_map(LvlVal::Display),
+        1 => (0u8..4).prop_map(LvlVal::Debug),
+        6 => level_text().prop_map(LvlVal::Text),
+        1 => level_text().prop_map(LvlVal::DisplayText),
+        2 => prop_oneof![0..=max_int, -3i64..300, any::<i64>()].prop_map(LvlVal::I64),
+        1 => prop_oneof![0u64..8, any::<u64>()].prop_map(LvlVal::U64),
+        1 => any::<bool>().prop_map(LvlVal::Bool),
+        1 => (0u8..6).prop_map(LvlVal::Float),
+        1 => Just(LvlVal::Null),
+    ]
+}
+
+/// level values for the numeric level types: mostly small integers and absence
+fn lvl_val_numeric() -> impl Strategy<Value = LvlVal> {
+    prop_oneof![
+        3 => Just(LvlVal::Absent),
+        8 => (0i64..8).prop_map(LvlVal::I64),
+        2 => (0u64..8).prop_map(LvlVal::U64),
+        1 => lvl_val(7),
+    ]
+}
+
+fn ev_level(v: impl Strategy<Value = LvlVal> + Clone) -> impl Strategy<Value = EvLevel> {
+    (v.clone(), prop_oneof![4 => Just(None), 1 => v.prop_map(Some)], any::<bool>()).prop_map(|(lvl, dup, noise)| EvLevel { lvl, dup, noise })
+}
+
+fn filt(max: u8) -> impl Strategy<Value = Filt> {
+    (0..max, prop_oneof![2 => Just(None), 1 => (0..max).prop_map(Some)]).prop_map(|(min, unleveled)| Filt { min, unleveled })
+}
+
+fn path(max_depth: usize) -> impl Strategy<Value = Vec<u8>> {
+    // the first segments are biased towards the prefix-sharing family a / aa / ab / a_
+    prop::collection::vec(prop_oneof![3 => Just(0u8), 2 => Just(1u8), 1 => 2u8..6], 1..=max_depth)
+}
+
+fn regs() -> impl Strategy<Value = Vec<Reg>> {
+    // a pool of a few paths, registrations draw from the pool (so repeats/overrides are frequent)
+    (prop::collection::vec(path(4), 1..5), prop::collection::vec((any::<u32>(), 0u8..3), 0..=10)).prop_flat_map(|(pool, picks)| {
+        let n = picks.len();
+        (Just(pool), Just(picks), prop::collection::vec(path(4), n), prop::collection::vec(any::<bool>(), n))
+    })
+    .prop_map(|(pool, picks, fresh, use_fresh)| {
+        picks
+            .iter()
+            .enumerate()
+            .map(|(i, (p, flavor))| Reg {
+                path: if use_fresh[i] { fresh[i].clone() } else { pool[vcore::pick(*p, pool.len())].clone() },
+                filt: Filt { min: 0, unleveled: None },
+                flavor: *flavor,
+            })
+            .collect::<Vec<Reg>>()
+    })
+}
+
+fn module_spec() -> impl Strategy<Value = ModuleSpec> {
+    prop_oneof![
+        1 => path(4).prop_map(ModuleSpec::Free),
+        5 => (any::<u32>(), 1u8..=4, prop_oneof![2 => Just(None), 1 => (0u8..6).prop_map(Some)], prop::collection::vec(prop_oneof![2 => 0u8..2, 1 => 0u8..6], 0..=2))
+            .prop_map(|(reg, keep, sibling, extra)| ModuleSpec::Related { reg, keep, sibling, extra }),
+    ]
+}
+
+fn map_case(max: u8, numeric: bool) -> impl Strategy<Value = MapCase> {
+    let lv = if numeric { lvl_val_numeric().boxed() } else { lvl_val(3).boxed() };
+    (
+        regs(),
+        prop::collection::vec(filt(max), 10),
+        prop_oneof![1 => Just(None), 1 => filt(max).prop_map(Some)],
+        (any::<u32>(), any::<u32>()),
+        any::<bool>(),
+        prop::collection::vec(any::<u32>(), 10),
+        prop::collection::vec((module_spec(), 0u8..3, ev_level(lv)), 1..=4),
+    )
+        .prop_map(|(mut regs, filts, default, default_at, from_iter, perm, queries)| {
+            for (r, f) in regs.iter_mut().zip(filts) {
+                r.filt = f;
+            }
+            MapCase {
+                regs,
+                default,
+                default_at,
+                from_iter,
+                perm,
+                queries: queries.into_iter().map(|(module, mflavor, ev)| Query { module, mflavor, ev }).collect(),
+            }
+        })
+}
+
+fn filter_case(max: u8, numeric: bool) -> impl Strategy<Value = FilterCase> {
+    let lv = if numeric { lvl_val_numeric().boxed() } else { lvl_val(3).boxed() };
+    (filt(max), ev_level(lv), 0u8..3).prop_map(|(filt, ev, ctor)| FilterCase { filt, ev, ctor })
+}
+
 fn main() {
-    eprintln!("C17: check not built yet");
-    std::process::exit(2);
+    vcore::run(
+        "C17",
+        VLevel::Exploration,
+        RULE,
+        &[
+            "an event whose `lvl` value has no recognisable level (text rejected by the documented lenient rule, numbers, bools, null) counts as an event without a level: the filter's unleveled default, else Info, applies",
+            "the lenient rule is applied to the text the value displays (integers, floats and bools included: `inf` therefore reads as Info); texts whose unmatched tail contains control or non-ASCII characters are left open (don't-care), as in C15",
+            "registering the same path again replaces its earlier minimum (last registration wins); permutation invariance is asserted for the last-wins de-duplicated registrations",
+            "module paths are valid paths (Path documents behaviour on invalid paths as undefined)",
+            "at level types other than Level (u8, custom Sev) only absent values and in-range integers have a defined level; every other value is don't-care (totality only)",
+        ],
+        |s| {
+            s.require("module:>=2-registered-textual-prefixes", 10_000);
+            s.require("module:textual-prefix-that-is-not-an-ancestor", 5_000);
+            s.require("module:>=2-registered-ancestors", 5_000);
+            s.require("overriding-registration", 5_000);
+            s.require("second-build-permuted", 5_000);
+            s.require("governed-by:map-default", 2_000);
+            s.require("governed-by:nothing(accept)", 2_000);
+            s.require("governed-by:registered-path", 10_000);
+            s.require("unleveled-event-with-default", 1_000);
+            s.require("lvl:text-must-accept", 5_000);
+            s.require("lvl:text-must-reject", 2_000);
+            s.require("lvl:integer", 2_000);
+            s.require("outcome:accept", 10_000);
+            s.require("outcome:reject", 10_000);
+
+            s.gen("min-level-filter", s.n(1_500_000, 30_000_000), || filter_case(4, false), check_level_filter_case);
+            s.gen("min-level-filter-u8", s.n(300_000, 5_000_000), || filter_case(8, true), |c, cx| {
+                cx.nontrivial(c.filt.unleveled.is_some() && c.ev.lvl == LvlVal::Absent);
+                check_filter_case::<u8>(c, cx)
+            });
+            s.gen("min-level-filter-custom", s.n(300_000, 5_000_000), || filter_case(8, true), |c, cx| {
+                cx.nontrivial(c.filt.unleveled.is_some() && c.ev.lvl == LvlVal::Absent);
+                check_filter_case::<Sev>(c, cx)
+            });
+            s.gen("path-map", s.n(2_000_000, 40_000_000), || map_case(4, false), check_map_case::<Level>);
+            s.gen("path-map-u8", s.n(400_000, 8_000_000), || map_case(8, true), check_map_case::<u8>);
+            s.gen("path-map-custom", s.n(400_000, 8_000_000), || map_case(8, true), check_map_case::<Sev>);
+            s.enumerate(
+                "path-map-small-scope",
+                (0u16..729).flat_map(|config| {
+                    [(false, false), (false, true), (true, false), (true, true)]
+                        .into_iter()
+                        .map(move |(default_warn, reverse)| SmallMap { config, default_warn, reverse })
+                }),
+                check_small_map,
+            );
+        },
+    )
 }
